@@ -26,10 +26,48 @@ func genSharingCase(r *rand.Rand, cfg Cfg) Case {
 		m := live[s]
 		x := r.Intn(100)
 		switch {
-		case x < 45:
+		case x < 41:
 			k, v := pick(r, uni), uint64(r.Intn(3))
 			m[k] = v
 			ops = append(ops, opIns(s, k, v))
+		case x < 45:
+			// a change that is undone again, then persisted: the tree writes, from NEW node objects,
+			// nodes whose names the store (and the cache, under another object) already has; other
+			// versions that hold the earlier objects must not notice.  Sometimes followed by reading
+			// an earlier root through a fresh cache (every node of it is decoded anew).
+			if len(m) == 0 {
+				continue
+			}
+			var ks []uint64
+			for _, u := range uni {
+				if _, ok := m[u]; ok {
+					ks = append(ks, u)
+				}
+			}
+			k := pick(r, ks)
+			if r.Intn(2) == 0 {
+				ops = append(ops, opDel(s, k, m[k]), fmt.Sprintf("hsync %d", s), "vcheck", opIns(s, k, m[k]))
+			} else {
+				ops = append(ops, opIns(s, k, m[k]+7), fmt.Sprintf("hsync %d", s), "vcheck", opIns(s, k, m[k]))
+			}
+			ops = append(ops, fmt.Sprintf("hsync %d", s), "vcheck", fmt.Sprintf("root %d %d", s, nroot))
+			rootMaps[nroot] = copyMap(m)
+			nroot++
+			if r.Intn(2) == 0 {
+				ops = append(ops, fmt.Sprintf("hsync %d", s), "vcheck")
+				if cfg.Cache == "recbig" {
+					ops = append(ops, "coldcache")
+				}
+				ri := r.Intn(nroot)
+				d := r.Intn(6)
+				ops = append(ops, fmt.Sprintf("load %d %d", ri, d))
+				live[d] = copyMap(rootMaps[ri])
+				if !has[d] {
+					has[d] = true
+					slots = append(slots, d)
+				}
+				s = d
+			}
 		case x < 65:
 			if len(m) == 0 {
 				continue
